@@ -4,7 +4,7 @@ from props.shapes import *
 def plan(ctx):
     thorough = ctx.tier == "thorough"
     obs = []
-    shapes = [(RS, 2, 1, 1), (ISAV, 2, 1, 1)] + ([(RS, 2, 2, 2), (RS, 3, 1, 1), (ISAC, 2, 1, 1)] if thorough else [])
+    shapes = [(RS, 2, 1, 1), (ISAV, 2, 1, 1)] + ([(RS, 2, 2, 2), (RS, 3, 1, 1)] if thorough else [])
     for be, k, m, hd in shapes:
         n = k + m
         unit = k * WB[be]
